@@ -2,7 +2,8 @@
 Tie (CLI, real binary): `grog deps|rdeps [-t] [--target-type=..] <label>`, `grog owners <files>`,
 `grog list <patterns>` on generated BUILD.json workspaces with aliases; stdout is compared as a
 MULTISET of lines with Select.deps_query / rdeps_query / owners / list_query (every label once since
-the repair of C20-F1: C20_*_printed_nodup) and as a SET with a Python reference (BFS over the
+the repair of C20-F1: C20_*_printed_nodup; an alias is filtered like the target it stands for since the
+repair of C20-F2: C20_*_printed_exact, C20_filter_alias) and as a SET with a Python reference (BFS over the
 dependency relation).  In-process: GetAncestors / GetDescendants against Select.deps_t / rdeps_t as
 multisets of nodes, GetAncestors also as a list (first-visit order).  Rebuild prediction: build, edit one input
 file, build again; the commands of the second build must be a subset of owners(f) + their
@@ -138,6 +139,7 @@ def check_query(out, nodes, q, res, mline, findings, stats, budget):
     want, alias_extra = reference(nodes, q)
     gs = set(got)
     ok = True
+    alias_known = False
     dups = sorted(l for l, c in Counter(got).items() if c > 1)
     if dups:
         stats["dup"] += 1
@@ -155,6 +157,7 @@ def check_query(out, nodes, q, res, mline, findings, stats, budget):
         fa = findings.get(ALIAS_CLASS)
         if not missing and extra and extra <= alias_extra and fa:
             stats["alias"] += 1
+            alias_known = True    # only on a tree without the repair of C20-F2: the model filters an alias like its target
             out.known(fa["id"], "class=%s `grog %s` prints alias %s although the target it stands for is filtered out (%s)" % (
                 ALIAS_CLASS, " ".join(res["args"]), sorted(extra)[0], filt(q["cfg"])))
         elif budget[0] > 0:
@@ -177,6 +180,8 @@ def check_query(out, nodes, q, res, mline, findings, stats, budget):
         stats["lines_equal_model"] = stats.get("lines_equal_model", 0) + 1
     elif dups and findings.get(DUP_CLASS) and set(got) == set(model):
         stats["explained_by_known_duplicates"] = stats.get("explained_by_known_duplicates", 0) + 1
+    elif alias_known and set(model) == want:
+        stats["explained_by_known_alias_filter"] = stats.get("explained_by_known_alias_filter", 0) + 1
     else:
         stats["model_mismatch"] += 1
         stats.setdefault("first_mismatch", rp)
@@ -370,6 +375,15 @@ def run(out, tier):
     worlds.append((twice, [{"kind": "deps", "cfg": cfg0, "n": 1, "t": False, "relative": False},
                            {"kind": "rdeps", "cfg": cfg0, "n": 0, "t": False, "relative": False},
                            {"kind": "deps", "cfg": cfg0, "n": 1, "t": True, "relative": False}]))
+    # the instance of C20_alias_filtered_printed (finding C20-F2 before its repair): //:tagged -> alias //:al -> //:plain
+    alw = [{"kind": k, "pkg": "", "name": n, "tags": t, "plats": [], "bin": False, "deps": d, "inputs": []}
+           for k, n, t, d in (("t", "plain", [], []), ("a", "al", [], [0]), ("t", "tagged", ["x"], [1]))]
+    cfg_all = dict(cfg0, pats=["//..."], pat_meaning=[("//...", lambda cur: ("", "", True))], tags=["x"])
+    worlds.append((alw, [{"kind": "deps", "cfg": dict(cfg0, tags=["x"]), "n": 2, "t": True, "relative": False},
+                         {"kind": "deps", "cfg": cfg0, "n": 2, "t": True, "relative": False},
+                         {"kind": "rdeps", "cfg": dict(cfg0, excl=["x"]), "n": 0, "t": True, "relative": False},
+                         {"kind": "deps", "cfg": dict(cfg0, type="test"), "n": 2, "t": False, "relative": False},
+                         {"kind": "list", "cfg": cfg_all}]))
     for _ in range(nws):
         nodes = sl.gen_world(r, nmax=10, files=True)
         worlds.append((nodes, gen_queries(r, nodes, nq)))
